@@ -3,6 +3,7 @@ package worker
 import (
 	"fmt"
 	"math"
+	"sync/atomic"
 	"testing"
 	"time"
 
@@ -22,6 +23,7 @@ import (
 
 func init() {
 	register(&Family{Name: "c06", Gen: func(seed uint64, tier string) *world.Scenario { return genCurves("c06", seed, false) }, Run: runC06})
+	register(&Family{Name: "c06conc", Gen: genC06Conc, Run: runC06Conc})
 	register(&Family{Name: "c07", Gen: func(seed uint64, tier string) *world.Scenario { return genCurves("c07", seed, true) }, Run: runC07})
 	register(&Family{Name: "c07loop", Gen: genC07Loop, Run: runC07Loop})
 	register(&Family{Name: "c07twin", Gen: genC07Twin, Run: runC07Twin})
@@ -360,6 +362,183 @@ func runC06(t *testing.T, sc *world.Scenario) *check.Result {
 				}
 				st.K.Stop()
 			})
+		}
+		return []Oracle{o}
+	})
+}
+
+// ---------------------------------------------------------------------------
+// c06conc: one curve graph shared by several fans. Sensor values are constant, so every evaluation of a
+// curve has one right answer; a sequential warm-up pass (judged by the reference semantics like any c06
+// evaluation) records it, then 2-4 evaluator tasks (the control loops of fans sharing the curve) evaluate
+// the roots at the same time, interleaved by the kernel at the curve.member yield points between member
+// evaluations: every result must equal the sequential one.
+
+func genC06Conc(seed uint64, tier string) *world.Scenario {
+	var sc *world.Scenario
+	for k := uint64(0); ; k++ {
+		sc = genCurves("c06conc", seed+k*1000003, false)
+		// constant leaves only, and at least one function curve over >= 2 members
+		ok := false
+		var keep []world.CurveSpec
+		drop := map[string]bool{}
+		for _, c := range sc.Curves {
+			if c.Kind == "pid" {
+				drop[c.ID] = true
+			}
+		}
+		for _, c := range sc.Curves {
+			if drop[c.ID] {
+				continue
+			}
+			if c.Kind == "function" {
+				var ms []string
+				for _, m := range c.Members {
+					if !drop[m] {
+						ms = append(ms, m)
+					}
+				}
+				if len(ms) == 0 {
+					drop[c.ID] = true
+					continue
+				}
+				c.Members = ms
+				if len(ms) >= 2 {
+					ok = true
+				}
+			}
+			keep = append(keep, c)
+		}
+		sc.Curves = keep
+		if ok {
+			break
+		}
+	}
+	sc.Seed = seed
+	r := kernel.NewRand(seed, "c06conc")
+	sc.Params["tasks"] = float64(r.Range(2, 4))
+	sc.Params["evals"] = float64(r.Range(8, 30))
+	return sc
+}
+
+type concRecord struct {
+	Task  int    `json:"task"`
+	Root  string `json:"root"`
+	Value int    `json:"value"`
+	Want  int    `json:"want"`
+	Err   string `json:"err,omitempty"`
+}
+
+type c06ConcOracle struct {
+	inner *c06Oracle
+	res   *check.Result
+	spec  map[string]*world.CurveSpec
+	seen  map[string]bool
+}
+
+func (o *c06ConcOracle) OnEvent(ev *kernel.Event) {
+	if ev.Kind == "task" {
+		if rec, ok := ev.Sample.(*concRecord); ok {
+			o.res.Probe("concurrent-evaluations")
+			kind := "?"
+			if c := o.spec[rec.Root]; c != nil {
+				kind = c.Func
+			}
+			switch {
+			case rec.Err != "":
+				if !o.seen["err"] {
+					o.seen["err"] = true
+					o.res.Violate("C06", "no-error", "no-error concurrent", ev.Seq, ev.T, "task %d: Evaluate of %s failed without any fault: %s", rec.Task, rec.Root, rec.Err)
+				}
+			case rec.Value != rec.Want:
+				if !o.seen[kind] {
+					o.seen[kind] = true
+					o.res.Violate("C06", "aggregate", "aggregate concurrent curve="+kind, ev.Seq, ev.T,
+						"task %d: function curve %s (%s) evaluated to %d while another fan was evaluating the same graph; with the same constant sensor values it evaluates to %d", rec.Task, rec.Root, kind, rec.Value, rec.Want)
+				}
+			}
+			return
+		}
+	}
+	o.inner.OnEvent(ev)
+}
+
+func (o *c06ConcOracle) Finish(st *stage.Stage, res *check.Result) {
+	res.Nontrivial = res.Probes["concurrent-evaluations"] > 5
+	if res.Probes["concurrent-evaluations"] == 0 && st.BootErr == nil {
+		res.Harness = "c06conc: no concurrent evaluation ran"
+	}
+	for _, c := range st.Sc.Curves {
+		res.State(c.Kind + "|" + c.Func)
+	}
+}
+
+func runC06Conc(t *testing.T, sc *world.Scenario) *check.Result {
+	return runL1(t, sc, func(st *stage.Stage, res *check.Result) []Oracle {
+		in := &c06Oracle{st: st, res: res, spec: map[string]*world.CurveSpec{}, pid: map[string]*pidRef{}, seen: map[string]bool{}}
+		o := &c06ConcOracle{inner: in, res: res, spec: in.spec, seen: map[string]bool{}}
+		for i := range sc.Curves {
+			in.spec[sc.Curves[i].ID] = &sc.Curves[i]
+			in.pid[sc.Curves[i].ID] = &pidRef{}
+		}
+		st.HarnessDriven = true
+		st.W.MemberYields = true
+		st.OnBooted = func(st *stage.Stage) {
+			r := kernel.NewRand(sc.Seed, "c06conc.task")
+			avgs := map[string]float64{}
+			for _, s := range sc.Sensors {
+				x := float64(r.Range(-10000, 130000)) + kernel.Pick(r, 0.0, 0.5, 0.25)
+				st.Sensors[s.ID].SetMovingAvg(x)
+				avgs[s.ID] = x
+			}
+			var roots []string
+			for _, c := range sc.Curves {
+				if c.Kind == "function" {
+					roots = append(roots, c.ID)
+				}
+			}
+			nTasks, nEvals := int(sc.Params["tasks"]), int(sc.Params["evals"])
+			base := map[string]int{}
+			start := make(chan struct{})
+			var left atomic.Int32
+			left.Store(int32(nTasks))
+			st.K.Go("warmup", func() {
+				for _, root := range roots {
+					v, err := st.Curves[root].Evaluate()
+					rec := &evalRecord{Root: root, Value: v, Avgs: avgs, Values: map[string]int{}}
+					if err != nil {
+						rec.Err = err.Error()
+					}
+					for id, c := range st.Curves {
+						rec.Values[id] = c.CurrentValue()
+					}
+					base[root] = v
+					st.K.StepWith("evaluated", rec)
+				}
+				close(start)
+			})
+			for k := 0; k < nTasks; k++ {
+				k := k
+				st.K.Go(fmt.Sprintf("fan%d", k), func() {
+					<-start
+					tr := kernel.NewRand(sc.Seed, fmt.Sprintf("c06conc.fan%d", k))
+					for i := 0; i < nEvals; i++ {
+						if tr.Bool(0.3) {
+							time.Sleep(time.Duration(tr.Range(1, 50)) * time.Millisecond)
+						}
+						root := roots[tr.Intn(len(roots))]
+						v, err := st.Curves[root].Evaluate()
+						rec := &concRecord{Task: k, Root: root, Value: v, Want: base[root]}
+						if err != nil {
+							rec.Err = err.Error()
+						}
+						st.K.StepWith(fmt.Sprintf("fan%d.evaluated", k), rec)
+					}
+					if left.Add(-1) == 0 {
+						st.K.Stop()
+					}
+				})
+			}
 		}
 		return []Oracle{o}
 	})
